@@ -1052,3 +1052,142 @@ pub fn par_chunks(threads: usize, n: usize, f: impl Fn(usize, usize, &mut Local)
     });
     out.into_inner().unwrap()
 }
+
+impl Run {
+    /// Differential exploration (C16): the same operation table instantiated for two representations
+    /// A and B of the same width, run from the same byte images; every observation must be identical.
+    /// No reference model is involved.
+    pub fn explore_diff<A: Subj, B: Subj, Z: ZNum>(&mut self, ops_a: &[Op<A, Z>], ops_b: &[Op<B, Z>], plan: &Plan<A>) {
+        assert_eq!(A::BITS, B::BITS);
+        self.explore_diff_ext(ops_a, ops_b, plan, None)
+    }
+
+    /// Widening form of the differential exploration: B is wider than A, operands are extended with
+    /// `ext` (the real cast); an operation that returns Some(v) / a value in A must return the same in
+    /// B, and where A returns None the result in B must be None or lie outside A's range.
+    pub fn explore_widen<A: Subj, B: Subj, Z: ZNum>(&mut self, ops_a: &[Op<A, Z>], ops_b: &[Op<B, Z>], plan: &Plan<A>, ext: fn(&A) -> B) {
+        assert!(A::BITS < B::BITS && A::SIGNED == B::SIGNED);
+        self.explore_diff_ext(ops_a, ops_b, plan, Some(ext))
+    }
+
+    fn explore_diff_ext<A: Subj, B: Subj, Z: ZNum>(&mut self, ops_a: &[Op<A, Z>], ops_b: &[Op<B, Z>], plan: &Plan<A>, ext: Option<fn(&A) -> B>) {
+        assert_eq!(ops_a.len(), ops_b.len());
+        let widen = ext.is_some();
+        let conv = |a: &A| -> B {
+            match ext {
+                Some(f) => f(a),
+                None => B::from_le(&a.le()),
+            }
+        };
+        let narrow = A::ti();
+        let expectation = |ob: Obs<Z>, oa: &Obs<Z>| -> Expect<Z> {
+            if widen {
+                if let (Obs::OV(None), Obs::OV(Some(w))) = (oa, &ob) {
+                    if !narrow.fits(w) {
+                        return Expect::Is(Obs::OV(None));
+                    }
+                }
+            }
+            Expect::Is(ob)
+        };
+        let config = format!("{}{}{}", A::type_name(), if widen { "=>" } else { "~" }, B::type_name());
+        let run_op = |i: usize, ra: &[A; 3], rb: &[B; 3], aux: u64| -> (Obs<Z>, Obs<Z>) {
+            let oa = match catch_unwind(AssertUnwindSafe(|| (ops_a[i].f)(ra, aux))) {
+                Ok(o) => o,
+                Err(_) => Obs::Panic,
+            };
+            let ob = match catch_unwind(AssertUnwindSafe(|| (ops_b[i].f)(rb, aux))) {
+                Ok(o) => o,
+                Err(_) => Obs::Panic,
+            };
+            (oa, ob)
+        };
+        if self.replay.is_some() {
+            for i in 0..ops_a.len() {
+                if let Some((st, aux)) = self.replay_target(&config, ops_a[i].name) {
+                    let ra: [A; 3] = [A::from_le(&unhex(&st[0])), A::from_le(&unhex(&st[1])), A::from_le(&unhex(&st[2]))];
+                    let rb: [B; 3] = [conv(&ra[0]), conv(&ra[1]), conv(&ra[2])];
+                    let (oa, ob) = run_op(i, &ra, &rb, aux);
+                    println!("replay {} {} {:?} aux={}", config, ops_a[i].name, st, aux);
+                    self.replay_verdict(&expectation(ob, &oa), &oa);
+                    return;
+                }
+            }
+            return;
+        }
+        if !self.wants_prefix(&config) {
+            return;
+        }
+        if self.over_deadline() {
+            self.cap_hit = true;
+            return;
+        }
+        for o in ops_a {
+            assert!(plan.aux.contains_key(&o.aux), "plan lacks aux domain {:?}", o.aux);
+        }
+        let pb: Vec<B> = plan.b.iter().map(|x| conv(x)).collect();
+        let pc: Vec<B> = plan.c.iter().map(|x| conv(x)).collect();
+        let cfg = config.clone();
+        let l = par_chunks(self.threads, plan.a.len(), |lo, hi, l| {
+            for ai in lo..hi {
+                let a = plan.a[ai];
+                let a2 = conv(&a);
+                let step = |i: usize, ra: &[A; 3], rb: &[B; 3], aux: u64, l: &mut Local| {
+                    let (oa, ob) = run_op(i, ra, rb, aux);
+                    let e = expectation(ob, &oa);
+                    l.check(&cfg, ops_a[i].name, || vec![ra[0].hex(), ra[1].hex(), ra[2].hex()], aux, &e, &oa);
+                };
+                for i in 0..ops_a.len() {
+                    let op = &ops_a[i];
+                    let auxs = &plan.aux[&op.aux];
+                    match op.arity {
+                        1 => {
+                            for &x in auxs {
+                                step(i, &[a, a, a], &[a2, a2, a2], x, l);
+                            }
+                        }
+                        2 => {
+                            for (bi, b) in plan.b.iter().enumerate() {
+                                if op.heavy && bi >= plan.heavy_b_limit {
+                                    break;
+                                }
+                                for &x in auxs {
+                                    step(i, &[a, *b, a], &[a2, pb[bi], a2], x, l);
+                                }
+                            }
+                        }
+                        _ => {
+                            for (bi, b) in plan.b.iter().enumerate() {
+                                for (ci, c) in plan.c.iter().enumerate() {
+                                    for &x in auxs {
+                                        step(i, &[a, *b, *c], &[a2, pb[bi], pc[ci]], x, l);
+                                    }
+                                }
+                            }
+                        }
+                    }
+                }
+            }
+        });
+        let states = plan.a.len() as u64 * (1 + plan.b.len() as u64);
+        self.merge(&config, &plan.label, if widen { "widening commutes (table operations)" } else { "differential (all table operations)" }, states, l);
+    }
+}
+
+/// Differential observation: evaluate a trait form and the inherent reference form, each under
+/// catch_unwind; B(true) when outcome (value or panic) is identical, a description otherwise.
+pub fn same<Z: ZNum>(a: &dyn Fn() -> Obs<Z>, b: &dyn Fn() -> Obs<Z>) -> Obs<Z> {
+    let oa = match catch_unwind(AssertUnwindSafe(a)) {
+        Ok(o) => o,
+        Err(_) => Obs::Panic,
+    };
+    let ob = match catch_unwind(AssertUnwindSafe(b)) {
+        Ok(o) => o,
+        Err(_) => Obs::Panic,
+    };
+    if oa == ob {
+        Obs::B(true)
+    } else {
+        Obs::S(format!("trait form gives {} but the inherent form gives {}", oa.show(), ob.show()))
+    }
+}
